@@ -24,6 +24,7 @@ def run_given(ctx, driver, cases, obs, to_term, header, case_type, key_fn, descr
     ctx.cov["traces_validated_against_impl"] += len(cases)
     lawg, corrg = _group(law), _group(corr)
     reported = set()
+    shrink_budget = [3]     # only the first few distinct failures are minimised
     for i in sorted(lawg):
         for code in sorted(lawg[i]):
             step, clause = code // 100, code % 100
